@@ -1,7 +1,67 @@
-/- Line-protocol engine for C01 — stub, to be filled in. -/
+/-
+Line-protocol engine for C01 (FSM dispatch layer). See go/overlay/internal/verifharness/c01.
+
+Every answer is computed by `CV.Fsm.dispatch` / `CV.Fsm.run` (the functions the theorems of
+`CV/Props/C01.lean` are about) over `CV.Fsm.Consul.table`, the dispatch table built from the
+regenerated facts. Ops:
+
+  tbl                         → `<byte>:<handler>,…` sorted by byte (the registered dispatch table)
+  ap <ced> <entry>            → outcome of one `(*FSM).Apply`
+  hist <ced> <entry>,…        → `n=<outcomes> crashed=<0|1> out=<outcome>,…` of replaying a whole log
+  cov <type name>,…           → `ok` or `missing=<registered types the run never generated>`
+
+`<ced>` = structs.CEDowngrade (0|1). `<entry>` = `e` (empty log data) or `<first byte>:<hp>` where
+`<hp>`=1 iff the real handler panicked on the payload (oracle: the decode layer is not modelled).
+Outcomes: `h:<slot>:<handler>`, `hp:<slot>` (handler panicked), `ign`, `panic`, `panic-empty`.
+-/
 import CV.Proto
+import CV.Fsm
+import CV.FsmFacts
 namespace CV.Engine.C01
-open CV
-def step (_ : Unit) (_toks : List String) : Unit × String := ((), "bad-op")
+open CV CV.Fsm
+
+def parseEntry (tok : String) : Option Bytes :=
+  if tok == "e" then some []
+  else match tok.splitOn ":" with
+    | [b, hp] => do
+        let b0 ← b.toNat?
+        let o ← decBool hp
+        if b0 < 256 then pure [b0, if o then 1 else 0] else none
+    | _ => none
+
+def showOutcome : Outcome String → String
+  | .handled slot name => s!"h:{slot}:{name}"
+  | .ignored => "ign"
+  | .panicUnknown => "panic"
+  | .panicHandler slot => s!"hp:{slot}"
+  | .panicEmpty => "panic-empty"
+
+def insertSorted (x : Nat × String) : List (Nat × String) → List (Nat × String)
+  | [] => [x]
+  | y :: ys => if x.1 ≤ y.1 then x :: y :: ys else y :: insertSorted x ys
+
+def tblLine : String :=
+  let rows := (Consul.slotTable.map fun (b, _, h) => (b, h)).foldr insertSorted []
+  encList (rows.map fun (b, h) => s!"{b}:{h}")
+
+def step (_ : Unit) (toks : List String) : Unit × String :=
+  match toks with
+  | ["tbl"] => ((), tblLine)
+  | ["ap", ced, e] =>
+    match decBool ced, parseEntry e with
+    | some ced, some buf => ((), showOutcome (dispatch Consul.table ced () () 0 buf).2)
+    | _, _ => ((), "bad-op")
+  | ["hist", ced, es] =>
+    match decBool ced, (decList es).mapM parseEntry with
+    | some ced, some bufs =>
+      let log := bufs.zipIdx.map fun (b, i) => (i + 1, b)
+      let t := run Consul.table ced (fun _ => ()) () log
+      ((), s!"n={t.results.length} crashed={encBool t.crashed} out={encList (t.results.map showOutcome)}")
+    | _, _ => ((), "bad-op")
+  | ["cov", seen] =>
+    let miss := Consul.missingTypes (decList seen)
+    ((), if miss.isEmpty then "ok" else s!"missing={encList miss}")
+  | _ => ((), "bad-op")
+
 def engine : Engine := { State := Unit, init := (), step := step }
 end CV.Engine.C01
